@@ -159,14 +159,22 @@ def extract_handler(ex: Extractor, fi: FuncInfo) -> Handler:
     cur: Optional[ast.If] = ifs[0]
     while cur is not None:
         t = cur.test
-        if not (isinstance(t, ast.Compare) and len(t.ops) == 1 and isinstance(t.left, ast.Name) and t.left.id in lasts):
+        if not (isinstance(t, ast.Compare) and len(t.ops) == 1):
             raise AnalysisError(f"{fi.where}: branch condition `{unparse(t)}` not recognised")
-        op = {ast.Gt: ">", ast.GtE: ">=", ast.Lt: "<", ast.LtE: "<="}.get(type(t.ops[0]))
+        # `last OP extreme` or, the other way round, `extreme OP' last`
+        if isinstance(t.left, ast.Name) and t.left.id in lasts:
+            last_n, other = t.left, t.comparators[0]
+            op = {ast.Gt: ">", ast.GtE: ">=", ast.Lt: "<", ast.LtE: "<="}.get(type(t.ops[0]))
+        elif isinstance(t.comparators[0], ast.Name) and t.comparators[0].id in lasts:
+            last_n, other = t.comparators[0], t.left
+            op = {ast.Gt: "<", ast.GtE: "<=", ast.Lt: ">", ast.LtE: ">="}.get(type(t.ops[0]))
+        else:
+            raise AnalysisError(f"{fi.where}: branch condition `{unparse(t)}` not recognised")
         if op is None:
             raise AnalysisError(f"{fi.where}: branch operator not recognised")
-        fn, axis, scope = ex.ext(fi, t.comparators[0], lst)
+        fn, axis, scope = ex.ext(fi, other, lst)
         x, y = xy_from(cur.body)
-        h.branches.append(((lasts[t.left.id], op, fn, axis, scope), x, y, cur))
+        h.branches.append(((lasts[last_n.id], op, fn, axis, scope), x, y, cur))
         nxt = cur.orelse
         if len(nxt) == 1 and isinstance(nxt[0], ast.If):
             cur = nxt[0]
@@ -332,6 +340,10 @@ def eval_guard(node: ast.AST, word_var: str, history: Optional[str]) -> bool:
         return history is not None
     if isinstance(node, ast.Compare) and len(node.ops) == 1:
         l, r, op = node.left, node.comparators[0], node.ops[0]
+        if isinstance(l, ast.Constant) and not isinstance(r, ast.Constant) and type(op) in (ast.Lt, ast.LtE, ast.Gt, ast.GtE, ast.Eq, ast.NotEq):
+            # constant on the left: read the comparison the other way round
+            l, r = r, l
+            op = {ast.Lt: ast.Gt, ast.LtE: ast.GtE, ast.Gt: ast.Lt, ast.GtE: ast.LtE, ast.Eq: ast.Eq, ast.NotEq: ast.NotEq}[type(op)]()
         lt = unparse(l)
         if lt == f"len({word_var})" and isinstance(r, ast.Constant):
             n_lo = 0 if history is None else 1  # length is 0 or >= 1
@@ -344,6 +356,10 @@ def eval_guard(node: ast.AST, word_var: str, history: Optional[str]) -> bool:
             if isinstance(op, ast.NotEq) and k == 0:
                 return history is not None
             if isinstance(op, ast.Eq) and k == 0:
+                return history is None
+            if isinstance(op, ast.Lt) and k == 1:
+                return history is None
+            if isinstance(op, ast.LtE) and k == 0:
                 return history is None
             raise AnalysisError(f"length test `{unparse(node)}` not evaluable on abstract histories")
         if lt == f"{word_var}[-1]" and isinstance(r, ast.Constant) and isinstance(r.value, str):
@@ -656,9 +672,9 @@ GENERIC_FILES = ['permuta/permutils/pin_words.py', 'permuta/permutils/pinword_ut
 
 
 def variants():
-    from ..selftest import generic_silent
+    from ..selftest import generic_equiv, generic_silent
 
-    return _variants() + generic_silent(GENERIC_FILES)
+    return _variants() + generic_silent(GENERIC_FILES) + generic_equiv(GENERIC_FILES)
 
 
 def _variants():
@@ -703,6 +719,7 @@ def _variants():
         V("sp-listing-tail-shifted", replace_expr(PW, "PinWords.pinword_occurrences_sp", "word[idx + 1:idx + k]", "word[idx:idx + k]"), "fire", "C14-D1"),
         V("sp-listing-quadrant-of-start", replace_expr(PW, "PinWords.pinword_occurrences_sp", "cls.quadrant(word, idx)", "cls.quadrant(word, start_index)"), "fire", "C14-D1"),
         V("factor-includes-numerals", replace_expr(PW, "PinWords.factor_pinword", "word[cur] in DIRS", "word[cur] in QUADS"), "fire", "C14-D1"),
+        V("pinword-y-coordinates-not-sorted", replace_expr("permuta/permutils/pin_words.py", "PinWords.pinword_to_perm", "sorted((x[1] for x in pre_perm))", "list((x[1] for x in pre_perm))"), "undecided", "C14-S1"),
         # silent
         V("contains-any-form", replace_expr(PW, "PinWords.pinword_contains", "next(cls.pinword_occurrences(word, u_word), False) is not False", "any((True for _ in cls.pinword_occurrences(word, u_word)))"), "silent"),
         V("reformat-util", reformat_only(PU), "silent"),
@@ -804,7 +821,7 @@ def _rec_shape(ctx: Ctx, occ: FuncInfo) -> None:
     if not (len(body) == 1 and isinstance(body[0], ast.If)):
         raise AnalysisError(f"{rec.where}: case analysis not recognised")
     c1 = body[0]
-    if unparse(c1.test) == f"{j} == len({us})" and [unparse(s) for s in c1.body] == [f"yield tuple({res})"]:
+    if unparse(c1.test) in (f"{j} == len({us})", f"len({us}) == {j}") and [unparse(s) for s in c1.body] == [f"yield tuple({res})"]:
         ctx.ok("C14-D1", rec.where, "all factors placed -> report the tuple of their start indices", c1, rec)
     else:
         ctx.violation("C14-D1", rec, c1, "a match is not reported exactly when every factor has been placed (j == len(factors) -> yield tuple(res))")
@@ -812,6 +829,9 @@ def _rec_shape(ctx: Ctx, occ: FuncInfo) -> None:
     rest = c1.orelse
     if len(rest) == 1 and isinstance(rest[0], ast.If) and unparse(rest[0].test) in (f"{i} >= len({w})", f"len({w}) <= {i}"):
         loop_part = rest[0].orelse
+    elif len(rest) == 1 and isinstance(rest[0], ast.If) and unparse(rest[0].test) in (f"{i} < len({w})", f"len({w}) > {i}") \
+            and all(isinstance(x, (ast.Return, ast.Pass)) and getattr(x, "value", None) is None for x in rest[0].orelse):
+        loop_part = rest[0].body  # the same case analysis with the positive test first
     else:
         loop_part = rest
     loops = [s for s in loop_part if isinstance(s, ast.For)]
@@ -916,3 +936,25 @@ FLOORS["C14-D2"] = 1
 EXPLANATION = EXPLANATION.replace("NOT decided: (d) that pattern containment is reflected by the factor-by-factor word search", "Of (d) only the by-construction parts are decided (D1: contains = NonEmpty(occurrences), "
                                   "the strict-factor test of Lemma 3.12 at every start index, factors placed in order after the end of the previous match, factorisation into numeral-led blocks). "
                                   "NOT decided: (d) that pattern containment is reflected by the factor-by-factor word search")
+
+
+# ------------------------------------------------------------------ C14-S1: binary searches run on sequences sorted by construction
+
+
+def rule_bisect(ctx: Ctx) -> None:
+    from ..core import check_bisect_preconditions
+
+    n = check_bisect_preconditions(ctx, "C14-S1", ['permuta.permutils.pin_words', 'permuta.permutils.pinword_util'])
+    if n == 0:
+        ctx.ok("C14-S1", "permuta.permutils.pin_words", "no binary search in the anchored modules (nothing to establish)")
+
+
+_OLD_RUN_BISECT = run
+
+
+def run(ctx: Ctx) -> None:  # noqa: F811
+    _OLD_RUN_BISECT(ctx)
+    ctx.run(rule_bisect, ctx)
+
+
+FLOORS["C14-S1"] = 1
